@@ -309,6 +309,35 @@ func runC09(c *Ctx) {
 		if opKeys["stat+"] != revKeys["stat-"] || opKeys["stat-"] != revKeys["stat+"] {
 			missing = append(missing, fmt.Sprintf("statistics mirror (operation +%d/-%d, undo +%d/-%d)", opKeys["stat+"], opKeys["stat-"], revKeys["stat+"], revKeys["stat-"]))
 		}
+		// the undo adjusts the statistics under the same predicate as the operation: an update that the operation
+		// counts (e.g. a change of status or role only, decided by StakeEqual) must be un-counted by the revert
+		if opKeys["stat+"]+opKeys["stat-"] > 0 {
+			og := statGuards(js.fn)
+			rg := map[string]bool{}
+			for _, a := range js.appends {
+				args := callArgs(a.(ssa.CallInstruction))
+				if len(args) != 1 {
+					continue
+				}
+				for _, alt := range entryAlternatives(args[0]) {
+					if rev := lookupMethod(w, stripConv(alt.Val).Type(), "revert"); rev != nil {
+						for k := range statGuards(rev) {
+							rg[k] = true
+						}
+					}
+				}
+			}
+			for k := range og {
+				if !rg[k] {
+					missing = append(missing, "statistics are adjusted under "+k+" in the operation but not in the undo")
+				}
+			}
+			for k := range rg {
+				if !og[k] {
+					missing = append(missing, "statistics are adjusted under "+k+" in the undo but not in the operation")
+				}
+			}
+		}
 		sort.Strings(missing)
 		if len(missing) > 0 && name == "(core/state.StateDB).RemoveValidator" {
 			// Dead API: its undo neither clears the deleted flag nor restores the
@@ -1081,4 +1110,27 @@ func createObjectJournalKinds(c *Ctx, w *World, appendObj *types.Func) {
 			}
 		}
 	}
+}
+
+// statGuards: the boolean predicates (called functions) whose outcome decides
+// whether fn adjusts the validator statistics.
+func statGuards(fn *ssa.Function) map[string]bool {
+	out := map[string]bool{}
+	for _, ci := range callInstrs(fn) {
+		o := calleeObj(ci)
+		if o == nil || !(o.Name() == "incrValidatorsStat" || o.Name() == "decrValidatorsStat") {
+			continue
+		}
+		for _, a := range atomsOf(factsAtInstr(ci.(ssa.Instruction))) {
+			if a.Kind != "true" {
+				continue
+			}
+			if cc, ok := stripConv(a.X).(*ssa.Call); ok {
+				if g := calleeObj(cc); g != nil {
+					out[g.Name()] = true
+				}
+			}
+		}
+	}
+	return out
 }
